@@ -87,12 +87,15 @@ func WriteFileAt(dir *os.File, filename string, data []byte, perm os.FileMode) e
 	if oerr != nil {
 		return oerr
 	}
+	verifKillPoint("open")
 	werr := writeAll(fd, data)
 	if cerr := unix.Close(fd); werr == nil {
 		werr = cerr
 	}
+	verifKillPoint("close")
 	if werr == nil {
 		werr = unix.Renameat(dirFd, tmpname, dirFd, filename)
+		verifKillPoint("rename")
 	}
 	if werr != nil {
 		_ = unix.Unlinkat(dirFd, tmpname, 0)
@@ -111,6 +114,7 @@ func writeAll(fd int, data []byte) error {
 		case n <= 0:
 			return io.ErrShortWrite
 		}
+		verifKillPoint("write")
 		data = data[n:]
 	}
 	return nil
